@@ -153,6 +153,8 @@ TABLE = [
      re.compile(r'io::copy\(\s*&mut (decompressor)\.by_ref\(\)\s*\.take\(([^;]*?)\),\s*&mut io::sink\(\),?\s*\)'), r'\1.skip_take(\2)'),
     ('R9', 'V.iter().take(N).map(|s| u64::from(*s)).sum() -> vsum_prefix_u32(V, N)',
      re.compile(r'(\b[\w.]+)\s*\.iter\(\)\s*\.take\((.*?)\)\s*\.map\(\|(\w+)\| u64::from\(\*\3\)\)\s*\.sum\(\)', re.S), r'vsum_prefix_u32(\1, \2)'),
+    ('R9', 'let X: u32 = V.iter().take(N).sum() -> vsum_prefix_u32_narrow(V, N)  (Sum for u32: `+` on u32, overflow-checked in the profile the suite runs in)',
+     re.compile(r'(let \w+: u32 = )(\b[\w.]+)\s*\.iter\(\)\s*\.take\((.*?)\)\s*\.sum\(\)', re.S), r'\1vsum_prefix_u32_narrow(\2, \3)'),
     ('R9', 'V.iter().map(|s| u64::from(*s)).sum() -> vsum_all_u32(&V)',
      re.compile(r'(\b[\w.]+)\.iter\(\)\.map\(\|(\w+)\| u64::from\(\*\2\)\)\.sum\(\)'), r'vsum_all_u32(&\1)'),
     ('R14', 'X.is_none_or(|v| E) -> match X { None => true, Some(v) => E }  (definition of the std method)',
